@@ -63,26 +63,27 @@ Qed.
 
 (* Ueq of an anisotropic atom is one third of the trace of the Cartesian tensor *)
 Lemma ueq_trace u11 u22 u33 u23 u13 u12 a b c al be ga :
-  (~ 0 < u11 \/ 0 + u33 + u23 + u13 + u12 <> 0) ->
+  (~ 0 < u11 \/ u33 <> 0 \/ u23 <> 0 \/ u13 <> 0 \/ u12 <> 0) ->
   k_ueq ROps u11 u22 u33 u23 u13 u12 a b c al be ga =
   (k_ucart_0_0 ROps u11 u22 u33 u23 u13 u12 a b c al be ga + k_ucart_1_1 ROps u11 u22 u33 u23 u13 u12 a b c al be ga +
    k_ucart_2_2 ROps u11 u22 u33 u23 u13 u12 a b c al be ga) / 3.
 Proof.
   intros H. kunfold.
-  destruct (Rlt_dec 0 u11) as [L | L].
-  - destruct (Req_EM_T (0 + u33 + u23 + u13 + u12) 0) as [E | E].
-    + exfalso. destruct H as [H | H]; [apply H; exact L | apply H; exact E].
-    + cbn [negb]. reflexivity.
-  - reflexivity.
+  destruct (Rlt_dec 0 u11) as [L | L]; [|reflexivity].
+  destruct (Req_EM_T u33 0) as [E3 | E3]; cbn [negb]; [|reflexivity].
+  destruct (Req_EM_T u23 0) as [E4 | E4]; cbn [negb]; [|reflexivity].
+  destruct (Req_EM_T u13 0) as [E5 | E5]; cbn [negb]; [|reflexivity].
+  destruct (Req_EM_T u12 0) as [E6 | E6]; cbn [negb]; [|reflexivity].
+  exfalso. destruct H as [H | [H | [H | [H | H]]]]; auto.
 Qed.
 
-(* an isotropic atom (U11 > 0, the other components 0) has Ueq = U11 *)
+(* an isotropic atom or Q-peak (U11 > 0, U33 = U23 = U13 = U12 = 0) has Ueq = U11 *)
 Lemma ueq_iso u11 u22 a b c al be ga : 0 < u11 ->
   k_ueq ROps u11 u22 0 0 0 0 a b c al be ga = u11.
 Proof.
   intros H. kunfold.
   destruct (Rlt_dec 0 u11) as [L | L]; [|contradiction].
-  destruct (Req_EM_T (0 + 0 + 0 + 0 + 0) 0) as [E | E]; [reflexivity | exfalso; apply E; ring].
+  destruct (Req_EM_T 0 0) as [E | E]; [cbn [negb]; reflexivity | exfalso; apply E; reflexivity].
 Qed.
 
 (* ---- positive definiteness is preserved by the chain (congruence with the regular matrix M N) ---- *)
